@@ -109,3 +109,6 @@ func (r *Report) finish(f campaignFlags) int {
 	}
 	return 0
 }
+
+// jsonUnmarshal decodes b into v (out is only used to keep call sites short).
+func jsonUnmarshal(b []byte, v interface{}, out interface{}) error { return json.Unmarshal(b, v) }
